@@ -3861,7 +3861,8 @@ static Value eval_expression(ASTNode *expr, Environment *env) {
             
             /* Set elements */
             for (int i = 0; i < count; i++) {
-                Value elem = eval_expression(expr->as.array_literal.elements[i], env);
+                /* the first element has been evaluated above: once, like the others */
+                Value elem = (i == 0) ? first : eval_expression(expr->as.array_literal.elements[i], env);
                 
                 /* Store element in array data */
                 switch (elem_type) {
